@@ -375,6 +375,11 @@ def front_end(R, F):
     guarded(R, 'T operators', engine_t.rule_operator_tables, F, R)
     guarded(R, 'T regex', engine_t.rule_regex, F, R)
     guarded(R, 'T input text', engine_t.rule_input_text, F, R)
+    # ... and the grammar: what the parser accepts, and which parsed piece ends up in which field of a syntax node
+    guarded(R, 'A1', engine_a.rule_A1, F, R)
+    guarded(R, 'A helpers', engine_a.rule_helpers, F, R)
+    guarded(R, 'A2', engine_a.rule_A2, F, R)
+    guarded(R, 'A3', engine_a.rule_A3, F, R)
 
 def evaluation(R, E):
     """the evaluator and the operations it dispatches to (the proofs of C01 / C03 / C04 / C05), for properties stated about `the formula`"""
@@ -454,6 +459,7 @@ def check_C10(F, tier, t0):
     guarded(R, 'X4', engine_x.rule_X4, F, R, ('parse', 'model', 'retain', 'vars', 'tablefilter', 'order'))
     front_end(R, F)
     guarded(R, 'X9', engine_x.rule_X9, F, R)
+    guarded(R, 'X12', engine_x.rule_X12, F, R)
     # the header is free_vars: it is right only if the free-variable analysis is
     E = make_engine(F)
     guarded(R, 'S var_is_free', run_S, R, E, [FRF], spec_bdd.B, False)
@@ -479,6 +485,7 @@ def check_C11(F, tier, t0):
     guarded(R, 'X3', engine_x.rule_X3, F, R)
     guarded(R, 'X4', engine_x.rule_X4, F, R, ('order', 'export', 'vars'))
     guarded(R, 'H', engine_e.rule_H, F, R)
+    guarded(R, 'E8', engine_e.rule_E8, F, R)      # one environment per formula: names are told apart by ids that every formula counts from 0
     # the semantic core: every operation is proved for an arbitrary total order of an arbitrary symbol type (C01 / C03 / C04 / C05)
     E = make_engine(F)
     evaluation(R, E)
@@ -532,7 +539,7 @@ def check_C12(F, tier, t0):
                 for r_ in live:
                     s2 = _copy.copy(s); s2.fn = r_; variants.append(s2)
             def discharge(sv):
-                for rule in (D.R0, D.R11, D.R8, D.R4, D.R10, D.R14, D.R6, D.RS):
+                for rule in (D.R0, D.R11, D.R8, D.R4, D.R10, D.R14, D.R15, D.R6, D.RS):
                     try:
                         rr = rule(sv)
                     except Exception as ex:
@@ -599,6 +606,7 @@ def check_C13(F, tier, t0):
     guarded(R, 'E4', engine_e.rule_E4, F, R)
     guarded(R, 'E6', engine_e.rule_E6, F, R)
     guarded(R, 'E8', engine_e.rule_E8, F, R)
+    guarded(R, 'E9', engine_e.rule_E9, F, R)
     guarded(R, 'X5', engine_x.rule_X5, F, R)      # in a shared environment a second formula's new variable must not take an id that is in use
     guarded(R, 'X7', engine_x.rule_X7, F, R)      # the exported diagram shows a shared node once (de-duplicated node and edge lists)
     guarded(R, 'XR', engine_x.rule_references, F, R)      # evaluating a formula leaves its definitions alone (a second evaluation sees what the first saw)
@@ -641,6 +649,8 @@ def check_C14(F, tier, t0):
     guarded(R, 'X6', engine_x.rule_X6, F, R)
     guarded(R, 'X4 dot filter', engine_x.rule_X4, F, R, ('dotfilter',))
     guarded(R, 'X10 node labels', engine_x.rule_X10, F, R)
+    guarded(R, 'X8 buffered', engine_x.rule_buffered_writers, F, R)      # a failed export is reported, not swallowed by a dropped buffer
+    guarded(R, 'E1', engine_e.rule_E1, F, R)      # node identity is the address of the interned node: every node must be born in mk_choice
     guarded(R, 'X4 lineage', engine_x.rule_X4, F, R, ('model', 'retain'))      # the exported diagram is the one the table shows (after --retain-choices and --model)
     guarded(R, 'X7', engine_x.rule_X7, F, R)
     guarded(R, 'X8', engine_x.rule_X8, F, R, 'rsbdd', 'executable')
@@ -660,6 +670,7 @@ def check_C15(F, tier, t0):
     import engine_n
     guarded(R, 'L-W', engine_l.rule_width, F, R, 'n_queens_gen')
     guarded(R, 'N', engine_n.rule_queens, F, R)
+    guarded(R, 'S model', run_S, R, make_engine(F), spec_bdd.BDD_SCOPE['C07'])      # `rsbdd -m` on the emitted formula: one placement, or nothing for the boards without one
     guarded(R, 'X8', engine_x.rule_X8, F, R, 'n_queens_gen')
     guarded(R, 'X8 flush', engine_x.rule_X8_flush, F, R, 'n_queens_gen')
     guarded(R, 'L remarks', engine_l.rule_comment_holes, F, R, 'n_queens_gen')
@@ -683,6 +694,7 @@ def check_C16(F, tier, t0):
     guarded(R, 'L templates', engine_l.rule_max_clique_templates, F, R)
     guarded(R, 'X8', engine_x.rule_X8, F, R, 'max_clique_gen')
     guarded(R, 'X8 flush', engine_x.rule_X8_flush, F, R, 'max_clique_gen')
+    guarded(R, 'no early return', engine_x.rule_no_early_return, F, R, 'max_clique_gen')
     guarded(R, 'L remarks', engine_l.rule_comment_holes, F, R, 'max_clique_gen')
     front_end(R, F)       # the emitted text means what the language's tokenizer and operator tables say it means
     guarded(R, 'X5', engine_x.rule_X5, F, R)      # ... with every name of the emitted formula a variable of its own
@@ -752,6 +764,7 @@ def check_C17(F, tier, t0):
     guarded(R, 'U', engine_u.rule_sudoku, F, R)
     guarded(R, 'X8', engine_x.rule_X8, F, R, 'sudoku_gen')
     guarded(R, 'X8 flush', engine_x.rule_X8_flush, F, R, 'sudoku_gen')
+    guarded(R, 'no early return', engine_x.rule_no_early_return, F, R, 'sudoku_gen')
     guarded(R, 'L remarks', engine_l.rule_comment_holes, F, R, 'sudoku_gen')
     front_end(R, F)       # the emitted text means what the language's tokenizer and operator tables say it means
     guarded(R, 'X5', engine_x.rule_X5, F, R)      # ... with every name of the emitted formula a variable of its own
